@@ -56,6 +56,11 @@ class MIADistinguisherMixin(_PartitionnedDistinguisherBaseMixin):
                 x = traces[trace_idx, sample_idx]
                 if x >= min_edge and x < max_edge:
                     bin_idx = int((x - min_edge) * norm)
+                    # Rounding can put the computed index one bin off next to an edge: the edges decide.
+                    if bin_idx >= nbins or x < self_bin_edges[bin_idx]:
+                        bin_idx -= 1
+                    elif x >= self_bin_edges[bin_idx + 1]:
+                        bin_idx += 1
                 elif x == max_edge:
                     bin_idx = nbins - 1
                 else:
